@@ -32,6 +32,17 @@ def handle (args : List String) (_impl : String) : String × String :=
         (out (wrappingSub bits a b), toHex ((x + m - y) % m))
     | "absdiff" => (out (absDiff bits a b), toHex (if x < y then y - x else x - y))
     | _ => ("bad-op", "bad-op")
+  | [op, _, as, bs', cs] =>
+    -- word primitives generated from the source (`Ruint.Gen.carrying_add` / `borrowing_sub`)
+    let x := parseHex as; let y := parseHex bs'; let c := cs == "t"
+    match op with
+    | "w_cadd" => let r := Ruint.Gen.carrying_add x y c
+        (toHex r.1 ++ " " ++ boolStr r.2,
+         toHex ((x + y + c.toNat) % W) ++ " " ++ boolStr (decide (W ≤ x + y + c.toNat)))
+    | "w_bsub" => let r := Ruint.Gen.borrowing_sub x y c
+        (toHex r.1 ++ " " ++ boolStr r.2,
+         toHex ((x + 2 * W - y - c.toNat) % W) ++ " " ++ boolStr (decide (x < y + c.toNat)))
+    | _ => ("bad-op", "bad-op")
   | [op, bs, as] =>
     let bits := parseDec bs
     let m := 2 ^ bits
